@@ -58,10 +58,37 @@ func genCase(caseNo int) {
 	run("reset", nil)
 	seed := 1 + rng.Intn(200)
 	sizes := map[string]int{}
+	allowOverlap := rng.Chance(1, 3)
+	if allowOverlap && rng.Bool() {
+		// the other order: a key that names an existing directory
+		seed++
+		run("put", []string{hx.HexS("a/c"), i2s(seed), i2s(10)})
+		sizes["a/c"] = 10
+		seed++
+		run("put", []string{hx.HexS("a"), i2s(seed), i2s(20)})
+		run("get", []string{hx.HexS("a"), "-1", "0"})
+		run("ls", nil)
+	} else if allowOverlap {
+		// force the collision: an object, then a key below it, then (other order) a key naming a directory
+		seed++
+		run("put", []string{hx.HexS("a"), i2s(seed), i2s(20)})
+		sizes["a"] = 20
+		seed++
+		run("put", []string{hx.HexS("a/b"), i2s(seed), i2s(10)})
+		run("get", []string{hx.HexS("a/b"), "-1", "0"})
+		run("copy", []string{hx.HexS("a"), hx.HexS("a/c")})
+		run("get", []string{hx.HexS("a/c"), "-1", "0"})
+		run("ls", nil)
+	}
 	// plain objects
 	for i := 0; i < 1+rng.Intn(3); i++ {
 		k := keys28[rng.Intn(len(keys28))]
-		if k == "a" && (sizes["a/b"] > 0 || sizes["a/c"] > 0) || (k == "a/b" || k == "a/c") && sizes["a"] > 0 {
+		// hierarchically overlapping keys ("a" with "a/b") are sent on purpose in one case out of three
+		_, hasA := sizes["a"]
+		_, hasAB := sizes["a/b"]
+		_, hasAC := sizes["a/c"]
+		overlap := k == "a" && (hasAB || hasAC) || (k == "a/b" || k == "a/c") && hasA
+		if overlap && !allowOverlap {
 			continue
 		}
 		sz := pickSize(rng.Chance(1, 8))
